@@ -16,7 +16,8 @@ project's own strict warning set (verification/cmake/compiler_flag_sets/common.c
                               CI sees the headers as system headers cannot be established offline, so it is not demanded)
   C++ header:                 g++/clang++ -std=c++14|17|20 (c++17 for the pmr flavour) CXX_FLAG_SET
 Every generated Python module is compile()d with warnings as errors and imported in a fresh interpreter with
-`-W error`, PYTHONPATH = <output dir>:/verif/_deps.  Every `#include` / `import` must be a standard header/module
+`-W error`, PYTHONPATH = <output dir>:/verif/_deps (a package __init__.py that has a sibling module is not imported
+a second time on its own: the sibling's fresh-interpreter import executes it first).  Every `#include` / `import` must be a standard header/module
 (or numpy/pydsdl, the documented runtime dependencies of the generated Python; cetl/ for the cetl flavour) or name a
 file the same run produced.
 
@@ -416,6 +417,12 @@ def evaluate(
                 ev.failures.append(Failure("py_syntax", "python", f"{type(e).__name__}: {norm_msg(str(e))}", rel, f"{rel}: {type(e).__name__}: {e}"))
                 continue
             mod = _module_name(pathlib.Path(rel))
+            if rel.endswith("__init__.py") and any(
+                r != rel and pathlib.Path(r).parent == pathlib.Path(rel).parent and not r.endswith("__init__.py") for r in rels
+            ):
+                # importing any module of the package in a fresh interpreter executes this very file first
+                ev.outcomes.add("py_import:package_covered_by_member_import")
+                continue
             rc, o = _run([PYTHON, "-W", "error", "-c", "import importlib,sys; importlib.import_module(sys.argv[1])", mod], env=env_py)
             ev.evals += 1
             if rc == 0 and not o.strip():
@@ -751,7 +758,7 @@ def run(ctx: Ctx) -> int:
             if cfg.lang not in c.get("langs", ["c", "cpp", "py"]):
                 continue
             space += 1
-            if ctx.thorough or (cfg.key in CORE_CFGS and c.get("quick_core", True)) or c.get("core_all") or ctx.in_slice(f"{c['id']}|{cfg.key}"):
+            if ctx.thorough or (cfg.key in CORE_CFGS and c.get("quick_core", True)) or c.get("core_all") or cfg.key in c.get("core_cfgs", ()) or ctx.in_slice(f"{c['id']}|{cfg.key}"):
                 per_lang.setdefault((cfg.lang, cfg.std), []).append(tuple(cfg))
         items += [(i, v) for v in per_lang.values()]
     used = sorted({c for _, v in items for c in v})
